@@ -732,7 +732,8 @@ func evaluateAggregationOverTime(sortedTimeSeries []Entry, ts map[uint32]float64
 	}
 
 	timeWindow := uint32(function.TimeWindow)
-	step := uint32(function.Step)
+	// a step below one second (subquery [5m:500ms]) would never advance the evaluation time
+	step := max(uint32(function.Step), 1)
 	nextEvaluationTime := timeRange.StartEpochSec
 
 	var prefixSum []float64
@@ -1189,7 +1190,8 @@ func evaluateRate(sortedTimeSeries []Entry, ts map[uint32]float64, timeRange *dt
 	var dx float64
 
 	timeWindow := uint32(function.TimeWindow)
-	step := uint32(function.Step)
+	// a step below one second (subquery [5m:500ms]) would never advance the evaluation time
+	step := max(uint32(function.Step), 1)
 	nextEvaluationTime := timeRange.StartEpochSec
 
 	for nextEvaluationTime <= timeRange.EndEpochSec {
